@@ -9,5 +9,6 @@ CONSTANTS
   MaxSkew = @SK@
   Dev = @DEV@
   EmitCex = @CEX@
+  SplitClean = @SPLIT@
 INVARIANTS Emit @INV@
 CHECK_DEADLOCK FALSE
